@@ -18,7 +18,7 @@ ASSUMPTIONS = [
     "replayed per-step log-probs are compared within 1e-4 + 8 ulp of the largest raw logit of the call (unscaled CVRPTW logits reach 5e3, i.e. 4e-3 of slack; everywhere else the slack stays ~1e-4); a parent mix-up changes them by O(0.1)",
     "OP is run on instances where every customer is a feasible first move (the start rule is a recorded C12 finding)",
 ]
-REQUIRED_COUNTERS = ["c13_warmup_calls", "c13_temperature_cases", "c13_beam_calls", "c13_topk_audits", "c13_beams_checked", "c13_replays", "c13_best_taps", "c13_best_rows"]
+REQUIRED_COUNTERS = ["c13_warmup_calls", "c13_temperature_cases", "c13_beam_calls", "c13_topk_audits", "c13_beams_checked", "c13_replays", "c13_best_taps", "c13_best_rows", "c13_forced_starts_checked", "c13_sched_beam_calls"]
 MIN_NONTRIVIAL = {"quick": 2500, "thorough": 30000}
 WORKERS = {"quick": 14, "thorough": 16}
 BUDGET_S = {"quick": 500, "thorough": 3000}
@@ -60,12 +60,23 @@ def cases(tier, seed):
                 for B in ((1, 3) if q else (1, 2, 5)):
                     for sb in (False, True):
                         out.append(dict(env=name, n=n, B=B, W=W, select_best=sb, s=rnd.randrange(10**6), wseed=rnd.randrange(4), policy="nar"))
+    # variable-length scheduling episodes with random forced first moves: L2D on FJSP / JSSP
+    from vlib import envzoo
+
+    scfgs = [c for c in envzoo.sched_configs(tier) if c["env"] in ("fjsp", "jssp") and c.get("n", 99) <= 16 and not c.get("stepwise") and not c.get("check_mask")]
+    for cfg in scfgs[: (6 if q else 14)]:
+        for W in (2, 3, 5):
+            for B in ((2, 4) if q else (1, 2, 3, 6)):
+                for sb in (False, True):
+                    out.append(dict(kind="sched", cfg=cfg, B=B, W=W, select_best=sb, s=rnd.randrange(10**6), wseed=rnd.randrange(4)))
     return out
 
 
 def run_case(ctx, case):
     from vlib import c13impl
 
+    if case.get("kind") == "sched":
+        return c13impl.sched_case(ctx, case)
     c13impl.case(ctx, case)
 
 
